@@ -359,6 +359,14 @@ def evaluate(chk, v, suffixes):
                     any(a_[0] == "glob" for g_ in tv[0]["guards"] for a_ in sym.atoms(g_)):
                 # a test vector kept between calls and refilled on demand: whether it holds mu when the fill is skipped is an
                 # invariant of the cache over call histories (what the guard's static cells hold), not a fact of one call
+                if not any(sym.contains(g_, sym.sym(mu)) for g_ in tv[0]["guards"]):
+                    # the condition of the fill does not look at mu at all: two calls with the same N and different mu -- the
+                    # second one skips the fill and rotates the first one's contents
+                    chk.refuted("R6", "%s: the test vector holds mu in all N coefficients on every call" % f.name, where=f.where, variant=vn,
+                                detail="the test vector is kept between calls and filled only when %s, a condition that does not mention mu: "
+                                       "call once with mu = 1/8 and again (same key) with mu = 1/4 -- the second call skips the fill and "
+                                       "rotates a vector holding 1/8" % " && ".join(sym.show(g) for g in tv[0]["guards"])[:200])
+                    continue
                 chk.broken("%s: the test vector is kept between calls and filled only when %s: whether it holds mu on every call is an "
                            "invariant of that cache over call histories, not decided" % (f.name, " && ".join(sym.show(g) for g in tv[0]["guards"])[:200]))
             if ok6 and tv[0]["guards"] and tv[0]["guards"] != br[0]["guards"]:
